@@ -891,6 +891,16 @@ func (e *Engine) evalCall(env *Env, n *ast.CallExpr) (Val, types.Type) {
 			return Sc{"0"}, tInt
 		}
 		return e.eval(le, n.Args[1])
+	case "streamByte": // streamByte(r, i): the byte source r delivers at absolute position i of its current stream
+		if !need(2) {
+			return Sc{"0"}, tInt
+		}
+		gen := e.comp(env.heap, "G.rd_gen", "Int", false)
+		r := argS(0)
+		return Sc{fmt.Sprintf("(rdbyte %s (select %s %s) %s)", r, gen, r, argS(1))}, types.Typ[types.Uint8]
+	case "faulted": // faulted(): some source read so far returned an error other than EOF / unexpected EOF
+		flt := e.comp(env.heap, "G.rd_fault", "Bool", false)
+		return Sc{fmt.Sprintf("(select %s 0)", flt)}, tBool
 	case "slid": // slid(s): identity of the byte range a slice designates (backing array, offset, length)
 		if !need(1) {
 			return Sc{"0"}, tInt
@@ -1231,7 +1241,7 @@ func ghostRole(role string) []string {
 	case "hash":
 		return []string{"crc_lo", "crc_hi", "crc_src", "crc_last"}
 	case "reader":
-		return []string{"rd_pos", "rd_left", "rd_eof"}
+		return []string{"rd_pos", "rd_left", "rd_eof", "rd_gen"}
 	}
 	return []string{"wr_failed", "wr_offered", "wr_calls", "wr_last"}
 }
@@ -1244,6 +1254,8 @@ var ghostSorts = map[string]string{
 	"rd_pos":     "Int",  // bytes consumed from this source so far
 	"rd_left":    "Int",  // bytes the source can still deliver (>= 0)
 	"rd_eof":     "Bool", // the source has reported end-of-file to a read
+	"rd_gen":     "Int",  // generation of the source's stream (changes when the reader is reset onto other data)
+	"rd_fault":   "Bool", // at key 0: some read returned an error that is neither EOF nor unexpected-EOF
 	"crc_lo":     "Int",  // hash covers stream [crc_lo, crc_hi) of crc_src
 	"crc_hi":     "Int",
 	"crc_src":    "Int",
